@@ -237,12 +237,33 @@ def w_errors(ctx, rng, i):
     ctx.case(("err", sps, i % 2, big), sample={"sps": sps, "out_of_range": big} if i < 2 else None)
 
 
+def w_two_grids(ctx, rng, i):
+    """identical DAC / SAMPLER arguments on grid A, grid B and grid A again within one process: nothing may be remembered."""
+    a, b = (int(v) for v in rng.choice([2, 3, 4, 5, 8, 9, 16, 17, 32, 33, 64], 2, replace=False))
+    bits = rng.integers(0, 2, int(rng.choice([4, 16, 50])))
+    shape = str(rng.choice(["nrz", "rz", "gaussian"]))
+    Vout, bias = pick_level(rng) or 1, pick_level(rng)
+    kw = {"T": min(a, b), "m": int(rng.integers(1, 4))} if shape == "gaussian" else {}
+    ctx.describe(sps_sequence=[a, b, a], shape=shape, Vout=Vout, bias=bias, bits=bits)
+    outs = []
+    for sps in (a, b, a):
+        with core.quiet():
+            T.gv(sps=sps, R=1e9)
+            x = D.DAC(bits, bias=bias, Vout=Vout, pulse_shape=shape, **kw)         # dac.post decides
+            y = D.SAMPLER(x, sps // 2)                                              # sampler.post decides
+        ctx.check("grid.length", x.len() == bits.size * sps and y.len() == bits.size, f"DAC/SAMPLER lengths wrong after the grid changed to sps={sps} (sequence {a},{b},{a})")
+        outs.append(x.signal)
+    ctx.check("grid.history", np.array_equal(outs[0], outs[2]), f"DAC result on sps={a} differs after a visit to sps={b}")
+    ctx.case(("grids", a, b, shape), sample=dict(sps_sequence=[a, b, a], shape=shape) if i < 2 else None)
+
+
 WORKLOADS = [
     Workload("levels", w_levels, 5000, 200000),
     Workload("gauss", w_gauss, 1500, 60000),
     Workload("gauss_inverse", w_gauss_inverse, 1500, 60000),
     Workload("errors", w_errors, 30, 600),
     Workload("repo_tests", lambda ctx, rng, i: core.run_repo_tests(ctx), 1, 1, budget=1800, tiers=("thorough",)),
+    Workload("two_grids", w_two_grids, 300, 20000),
 ]
 
 
